@@ -144,6 +144,11 @@ func c05Plan(tier string) []c05Test {
 	for _, n := range append(append([]int64{}, c05Small...), c05Large...) {
 		t = append(t, c05Test{"modes", n, 0})
 	}
+	// a die written in a script is the die Roll is asked for: exact agreement with Roll on a clone
+	// of the generator, for every large size (the VM must not lose a single unit of the size)
+	for _, n := range append(append([]int64{}, c05Large...), 9007199254740993, 9007199254740995, 9223372036854775806, 9223372036854775295, 1<<53+1, 1<<60+1, 6, 100) {
+		t = append(t, c05Test{"vmexact", n, 0})
+	}
 	return t
 }
 
@@ -485,6 +490,29 @@ func c05Case(w *fw.W, idx int, r *fw.Rand) {
 		}
 		w.Eval(2003)
 		w.Count("mode_checks", 1)
+		w.Note(fw.Hash64(desc))
+		return
+	case "vmexact":
+		bad := ""
+		for k := 0; k < 300 && bad == ""; k++ {
+			vm := Cfg{Seed: r.U64() | 1}.NewVM()
+			clone := *vm.RandSrc
+			form := []string{"d%d", "1d%d", "d(%d)", "d(%d+0)"}[k%4]
+			if err := vm.Run(fmt.Sprintf(form, t.n)); err != nil {
+				bad = fmt.Sprintf("%s rejected: %s", fmt.Sprintf(form, t.n), firstLine(err.Error()))
+				break
+			}
+			got, _ := vm.Ret.ReadInt()
+			want := ds.Roll(&clone, ds.IntType(t.n), 0)
+			if got != want {
+				bad = fmt.Sprintf("%s = %d, but Roll(generator, %d) from the same generator state = %d", fmt.Sprintf(form, t.n), got, t.n, want)
+			}
+		}
+		if bad != "" {
+			w.Violate(idx, "dice-bias", "roll|vm-exact", desc, bad, nil)
+		}
+		w.Eval(300)
+		w.Count("vmexact_checks", 1)
 		w.Note(fw.Hash64(desc))
 		return
 	case "fallback":
